@@ -516,5 +516,5 @@ def run(tier, t0):
     all_ok = (O['n'] == O['ok'])
     return harness.finish(res, tier, t0, level='proof' if (all_ok and not res.errors and not res.violations) else 'other', distinct=nreg, proof=True, trusted=['rustc nightly MIR construction (string match lowering)', 'engines/mirfacts', 'py/mirq.py PathExplorer'], explanation=(
         'Exhaustive check of finite tables: for each of the nine CpuContext impls the name->place maps of get_register_always and set_register, the alias map of memoize_register, '
-        'the alias groups of register_is_valid, the REGISTERS list and the sp/ip names are extracted from MIR and compared name by name; the MinidumpContext dispatchers are checked arm by arm; '
+        'the alias groups of register_is_valid, the REGISTERS list and the sp/ip names are extracted from MIR and compared name by name; the MinidumpContext dispatchers are checked arm by arm, including the enumeration of valid registers (registers() filtered by the per-CPU validity test) and the REGISTERS table each variant hands out; '
         'get_register is checked to guard get_register_always with register_is_valid. Every obligation is enumerated (obligations/discharged).'))
